@@ -173,21 +173,19 @@ theorem checkedInsertBefore_kid (h : RootAt f X tc Y) {A B k1 k2 : List HTree} {
     last child. -/
 theorem placeAtEnd (h : RootAt f X tc Y) {A B ks : List HTree} {p : Nat} {v : Value}
     (hXY : X ++ Y = A ++ HTree.node p v ks :: B) :
-    (match ks.getLast?.map HTree.handle with
-     | some ip => f.checkedInsertAfter ip tc.handle
-     | none => f.checkedPrepend p tc.handle) =
-      ({ f with roots := A ++ HTree.node p v (ks ++ [tc]) :: B }, true) := by
-  cases hl : ks.getLast? with
-  | none =>
-    have : ks = [] := List.getLast?_eq_none_iff.1 hl
-    subst this
-    simp only [Option.map_none]
-    exact h.checkedPrepend_root hXY
-  | some l =>
+    (∀ l, ks.getLast? = some l → f.checkedInsertAfter l.handle tc.handle =
+      ({ f with roots := A ++ HTree.node p v (ks ++ [tc]) :: B }, true)) ∧
+    (ks.getLast? = none → f.checkedPrepend p tc.handle =
+      ({ f with roots := A ++ HTree.node p v (ks ++ [tc]) :: B }, true)) := by
+  refine ⟨?_, ?_⟩
+  · intro l hl
     obtain ⟨k1, rfl⟩ := List.getLast?_eq_some_iff.1 hl
-    simp only [Option.map_some]
     rw [h.checkedInsertAfter_kid (k2 := []) hXY]
     simp
+  · intro hl
+    have : ks = [] := List.getLast?_eq_none_iff.1 hl
+    subst this
+    exact h.checkedPrepend_root hXY
 
 end RootAt
 end XotModel
